@@ -90,9 +90,7 @@ class TokenParser(Parser):
         try:
             value = ast.literal_eval(value)
         except (ValueError, SyntaxError):
-            pass
-
-        if isinstance(value, str):
+            # Not a literal: an expression over numbers and the constants defined so far
             try:
                 value = Expression(self.cstruct, value).evaluate()
             except (ExpressionParserError, ExpressionTokenizerError):
